@@ -1037,18 +1037,22 @@ static int record_ret_stack(struct mcount_thread_data *mtdp, enum uftrace_record
 	buf[0] = timestamp;
 	buf[1] = rec;
 
-	curr_buf->size += sizeof(*frstack);
 	mrstack->flags |= MCOUNT_FL_WRITTEN;
+	size -= sizeof(*frstack);
 
 	if (argbuf) {
-		unsigned int *ptr = (void *)curr_buf->data + curr_buf->size;
-
-		size -= sizeof(*frstack);
+		unsigned int *ptr = (void *)(buf + 2);
 
 		mcount_memcpy4(ptr, argbuf + 4, size);
-
-		curr_buf->size += ALIGN(size, 8);
 	}
+
+	/*
+	 * Publish the header and its payload with a single update: uftrace
+	 * reads 'size' when the task dies (flush_shmem_list) and must not
+	 * see a header with the 'more' bit whose payload is not there yet.
+	 */
+	compiler_barrier();
+	curr_buf->size += sizeof(*frstack) + ALIGN(size, 8);
 
 	pr_dbg3("rstack[%d] %s %lx\n", mrstack->depth, type == UFTRACE_ENTRY ? "ENTRY" : "EXIT ",
 		mrstack->child_ip);
